@@ -176,6 +176,58 @@ def run(ctx, extra_defs=()):
     analyse(ctx, P, R1, R2)
     guard_table(ctx, P, R3)
     escape(ctx, P, R4)
+    # ---------------- R5 the tree's own containers keep the promise the lockset relies on
+    R5 = ctx.rule('C09.R5', 'read-only by name means read-only: every member of the cache\'s own hash map that the lockset analysis treats as a read (find, begin, end, size, ... and const members) writes none of the '
+                            'container\'s fields and calls no member that does - fetch() runs find() under the shared lock')
+    n5 = 0
+    hm = [g for g in P.fns.values() if g.body is not None and ('impl::details::basic_map' in (g.record or '') or 'impl::hash_map' in (g.record or ''))]
+    ctx.require(len(hm) >= 10, 'C09.R5: hash_map members not found (%d)' % len(hm))
+    byid = dict((g.id, g) for g in hm)
+    memo = {}
+
+    def mutates(g, depth=0):
+        """first node through which g (transitively over members of the same container) writes a field of the container; None if it does not"""
+        if g.id in memo:
+            return memo[g.id]
+        memo[g.id] = None
+        for i in g.all_nodes():
+            n_ = g.N(i)
+            tgt = None
+            if n_['k'] in ('BinaryOperator', 'CompoundAssignOperator') and n_.get('op') in lockset.ASSIGN:
+                tgt = n_['ch'][0]
+            elif n_['k'] == 'UnaryOperator' and n_.get('op') in ('++', '--'):
+                tgt = n_['ch'][0]
+            elif n_['k'] == 'CXXOperatorCallExpr' and n_.get('op') in ('=', '+=', '++', '--'):
+                tgt = n_['ch'][1]
+            if tgt is not None and any(x.startswith('f:') and ('basic_map' in x or 'hash_map' in x) for x in g.subtree_refs(tgt)) and not any(x.startswith('v:') for x in [g.ref_of(tgt) or '']):
+                memo[g.id] = g.loc(i)
+                return memo[g.id]
+            if n_['k'] == 'CXXMemberCallExpr':
+                cal = n_.get('callee') or ''
+                sh = q.short_of(g.callee(i) or '')
+                o_ = g.obj(i)
+                on_self = o_ is None or g.N(g.strip(o_))['k'] == 'CXXThisExpr' or any(x.startswith('f:') and ('basic_map' in x or 'hash_map' in x) for x in g.subtree_refs(o_))
+                if not on_self:
+                    continue
+                h = byid.get(cal)
+                if h is not None and depth < 4:
+                    m_ = mutates(h, depth + 1)
+                    if m_:
+                        memo[g.id] = g.loc(i)
+                        return memo[g.id]
+                elif h is None and not cal.endswith(' const') and sh not in lockset.NONMUT and o_ is not None and g.N(g.strip(o_))['k'] != 'CXXThisExpr':
+                    memo[g.id] = g.loc(i)      # a mutating member of a standard container field (resize, assign, clear, push_back ...)
+                    return memo[g.id]
+        return None
+    for g in sorted(hm, key=lambda x: x.id):
+        if g.kind in ('ctor', 'dtor') or not (g.short in lockset.NONMUT or g.id.endswith(' const')):
+            continue
+        n5 += 1
+        at = mutates(g)
+        ctx.check(at is None, R5, '%s::%s:does-not-write-the-container' % ((g.record or '').split('<')[0].rsplit('::', 1)[-1], g.short + (' const' if g.id.endswith(' const') else '')),
+                  'a member the lockset treats as a read modifies the container: two readers under the shared lock race', at or g.where)
+    ctx.require(n5 >= 3 or ctx.violations, 'C09.R5: no read-by-name members of the hash map found')
+    ctx.floor(R5, 3)
     ctx.floor(R4, 8)
     ctx.floor(R1, 120)
     ctx.floor(R2, 10)
